@@ -43,6 +43,10 @@ struct State {
     labels: BTreeMap<Tid, String>,
     task_of: BTreeMap<Tid, u64>,
     pending: BTreeMap<Tid, Event>,
+    /// arrival order of the pending requests (std's RwLock prefers writers: a read request queues behind a
+    /// write request that arrived before it, even while only readers hold the lock)
+    arrival: BTreeMap<Tid, u64>,
+    arrivals: u64,
     granted: Option<Tid>,
     running: BTreeSet<Tid>,
     task_seq: u64,
@@ -61,6 +65,8 @@ impl State {
             labels: BTreeMap::new(),
             task_of: BTreeMap::new(),
             pending: BTreeMap::new(),
+            arrival: BTreeMap::new(),
+            arrivals: 0,
             granted: None,
             running: BTreeSet::new(),
             task_seq: 0,
@@ -72,6 +78,24 @@ impl State {
     }
     fn label(&self, t: Tid) -> String {
         self.labels.get(&t).cloned().unwrap_or_else(|| if Some(t) == self.main { "main".into() } else { format!("{:?}", t) })
+    }
+    /// write requests on the file table that are waiting behind readers (every pending thread stands for a thread
+    /// that is inside the real acquisition call)
+    fn writers_queued_before(&self, t: Tid) -> Vec<Tid> {
+        if self.model.vfs_readers.is_empty() {
+            return vec![]; // lock free: reader and writer race, either may win
+        }
+        self.pending.iter().filter(|(o, e)| **o != t && matches!(e, Event::VfsWriteWant)).map(|(o, _)| *o).collect()
+    }
+    fn grantable_for(&self, t: Tid, e: &Event) -> bool {
+        match e {
+            Event::VfsWriteWant => self.model.vfs_writer.is_none() && self.model.vfs_readers.is_empty(),
+            // writer preference of std::sync::RwLock (futex implementation): while readers hold the lock and a
+            // writer waits, no new reader gets in
+            Event::VfsReadWant => self.model.vfs_writer.is_none() && self.writers_queued_before(t).is_empty(),
+            Event::SalsaWriteWant => self.model.live.is_empty(),
+            _ => true,
+        }
     }
     fn grantable(&self, e: &Event) -> bool {
         match e {
@@ -92,6 +116,7 @@ impl State {
                 v
             }
             Event::VfsReadWant => self.model.vfs_writer.iter().map(|w| (self.label(*w), "vfs")).collect(),
+            Event::VfsReadHeld => vec![],
             Event::SalsaWriteWant => self
                 .model
                 .live
@@ -109,8 +134,14 @@ impl State {
     fn find_cycle(&self, waiting: &BTreeMap<Tid, Event>) -> Option<String> {
         let mut edges: BTreeMap<String, Vec<(String, &'static str)>> = BTreeMap::new();
         for (t, e) in waiting {
-            if !self.grantable(e) {
-                edges.insert(self.label(*t), self.holders(e));
+            if !self.grantable_for(*t, e) {
+                let mut h = self.holders(e);
+                if matches!(e, Event::VfsReadWant) {
+                    for w in self.writers_queued_before(*t) {
+                        h.push((self.label(w), "vfs-queue:writer-preference"));
+                    }
+                }
+                edges.insert(self.label(*t), h);
             }
         }
         for start in edges.keys() {
@@ -209,6 +240,9 @@ fn install_hook() {
             match st.mode {
                 Mode::Controlled => {
                     st.pending.insert(tid, e.clone());
+                    st.arrivals += 1;
+                    let a = st.arrivals;
+                    st.arrival.insert(tid, a);
                     st.running.remove(&tid);
                     s.cv.notify_all();
                     while st.granted != Some(tid) && st.mode == Mode::Controlled {
@@ -225,6 +259,9 @@ fn install_hook() {
                 Mode::Stress(seed) => {
                     // wait-for monitoring without control: record the wait, look for a cycle, inject a delay
                     st.pending.insert(tid, e.clone());
+                    st.arrivals += 1;
+                    let a = st.arrivals;
+                    st.arrival.insert(tid, a);
                     if matches!(e, Event::SalsaWriteWant) {
                         st.model.salsa_writer_waiting = true;
                     }
@@ -366,6 +403,8 @@ enum Handler {
     DidChangeRoot,
     DidOpenOther,
     DidChangeIncluded,
+    /// a change that carries exactly the text the server already has (undo / re-opened tab)
+    DidChangeRootSameText,
 }
 
 const A_TEXT: &str = "include \"b.td\"\nclass A<int x> : B<x> { int f = x; }\ndef d : A<1> { let g = 2; }\n";
@@ -473,6 +512,11 @@ fn run_schedule(handler: Handler, tasks: &[TaskKind], prefix: &[usize]) -> Run {
             version += 1;
             sess.did_change("/ws/a.td", version, &format!("{}class Extra{};\n", A_TEXT, version));
         }
+        Handler::DidChangeRootSameText => {
+            version += 1;
+            let same = if tasks.contains(&TaskKind::Diagnostics) { format!("{}// v{}\n", A_TEXT, 2) } else { A_TEXT.to_string() };
+            sess.did_change("/ws/a.td", version, &same);
+        }
         Handler::DidOpenOther => sess.did_open("/ws/c.td", "class C;\ndef c : C;\n"),
         Handler::DidChangeIncluded => sess.did_change("/ws/b.td", 2, &format!("{}class B2;\n", B_TEXT)),
     }
@@ -493,7 +537,7 @@ fn run_schedule(handler: Handler, tasks: &[TaskKind], prefix: &[usize]) -> Run {
             outcome = Outcome::Completed;
             break;
         }
-        let mut options: Vec<(String, Tid)> = st.pending.iter().filter(|(_, e)| st.grantable(e)).map(|(t, _)| (st.label(*t), *t)).collect();
+        let mut options: Vec<(String, Tid)> = st.pending.iter().filter(|(t, e)| st.grantable_for(**t, e)).map(|(t, _)| (st.label(*t), *t)).collect();
         options.sort();
         if options.is_empty() {
             let waiting = st.pending.clone();
@@ -725,7 +769,7 @@ fn send_task_at(s: &mut Session, k: TaskKind, line: u64) -> Option<u64> {
 
 fn scenarios(tier: Tier) -> Vec<(Handler, Vec<TaskKind>)> {
     let mut v = Vec::new();
-    for h in [Handler::DidChangeRoot, Handler::DidOpenOther, Handler::DidChangeIncluded] {
+    for h in [Handler::DidChangeRoot, Handler::DidOpenOther, Handler::DidChangeIncluded, Handler::DidChangeRootSameText] {
         for a in TASKS {
             v.push((h, vec![a]));
         }
@@ -781,6 +825,7 @@ impl Check for C08 {
             let h = match case["handler"].as_str() {
                 Some("DidOpenOther") => Handler::DidOpenOther,
                 Some("DidChangeIncluded") => Handler::DidChangeIncluded,
+                Some("DidChangeRootSameText") => Handler::DidChangeRootSameText,
                 _ => Handler::DidChangeRoot,
             };
             let tasks: Vec<TaskKind> = case["tasks"].as_array().map(|a| a.iter().filter_map(|t| TASKS.iter().find(|k| Some(format!("{:?}", k).as_str()) == t.as_str()).copied()).collect()).unwrap_or_default();
@@ -797,10 +842,10 @@ impl Check for C08 {
         }
     }
     fn rule(&self) -> String {
-        "CONTROLLED: the lsp hook callback blocks every server thread at its acquisition points (file-table read/write, salsa input write, task start); a scheduler grants one thread at a time, only when the modelled lock state lets the real acquisition succeed, and enumerates all grant orders depth-first by re-running the scenario on the real server (real tokio runtime, real locks) with a forced choice prefix. Scenarios: handler in {didChange of the root, didOpen of another document, didChange of an included open document} against one in-flight snapshot task of each of the 9 kinds (8 request kinds + the diagnostics task of a preceding edit), quick also 2 and thorough all two-task combinations. A state where threads wait and none can be granted is a deadlock; the wait-for cycle over holders (not queue positions) is the witness; afterwards every request must have its response and the server must become idle. STRESS: uncontrolled sessions of 40-120 messages (edit bursts mixed with all request kinds) on a workspace whose analysis takes milliseconds, with seeded delays injected at the acquisition points; the same wait-for graph is maintained online and a stall is a violation only if it shows a cycle (a bare watchdog is no verdict). non-trivial = every schedule / session; distinct = distinct grant sequences".into()
+        "CONTROLLED: the lsp hook callback blocks every server thread at its acquisition points (file-table read/write, salsa input write, task start); a scheduler grants one thread at a time, only when the modelled lock state lets the real acquisition succeed, and enumerates all grant orders depth-first by re-running the scenario on the real server (real tokio runtime, real locks) with a forced choice prefix. Scenarios: handler in {didChange of the root, didOpen of another document, didChange of an included open document, didChange of the root with unchanged text} against one in-flight snapshot task of each of the 9 kinds (8 request kinds + the diagnostics task of a preceding edit), quick also 2 and thorough all two-task combinations. A state where threads wait and none can be granted is a deadlock; the wait-for cycle over holders (not queue positions) is the witness; afterwards every request must have its response and the server must become idle. STRESS: uncontrolled sessions of 40-120 messages (edit bursts mixed with all request kinds) on a workspace whose analysis takes milliseconds, with seeded delays injected at the acquisition points; the same wait-for graph is maintained online and a stall is a violation only if it shows a cycle (a bare watchdog is no verdict). non-trivial = every schedule / session; distinct = distinct grant sequences".into()
     }
     fn floors(&self, tier: Tier) -> Vec<(&'static str, u64)> {
-        vec![("schedules", tier.pick(60, 1000)), ("handler:DidChangeRoot", 20), ("handler:DidOpenOther", 20), ("handler:DidChangeIncluded", 20), ("task:Diagnostics", 6), ("task:Definition", 6), ("task:DocumentLink", 3), ("stress_sessions", tier.pick(16, 300)), ("event:VfsReadHeld", 100), ("event:SalsaWriteDone", 100)]
+        vec![("schedules", tier.pick(60, 1000)), ("handler:DidChangeRoot", 20), ("handler:DidOpenOther", 20), ("handler:DidChangeIncluded", 20), ("handler:DidChangeRootSameText", 20), ("task:Diagnostics", 6), ("task:Definition", 6), ("task:DocumentLink", 3), ("stress_sessions", tier.pick(16, 300)), ("event:VfsReadHeld", 100), ("event:SalsaWriteDone", 100)]
     }
     fn exhaustive(&self, tier: Tier) -> Option<String> {
         Some(format!("all grant orders at the hooked points for each of the {} scenarios (capped at {} schedules per scenario; a cap hit is reported as feature scenario_truncated)", scenarios(tier).len(), tier.pick(400, 4000)))
@@ -808,11 +853,17 @@ impl Check for C08 {
     fn assumptions(&self) -> Vec<String> {
         vec![
             "locks taken at un-hooked places are invisible to the controlled mode (they would show as a watchdog, i.e. no verdict, or in the stress mode)".into(),
-            "wait-for edges point at holders only; writer-preference queueing of std::sync::RwLock is not modelled".into(),
+            "the file table is a std::sync::RwLock (futex implementation): a read request queues behind a write request that arrived earlier (writer preference), which the model reproduces; a re-entrant read by one thread is therefore a deadlock in the schedule where a writer arrives in between".into(),
         ]
     }
     fn workers(&self) -> usize {
         16
+    }
+    fn sanitizer_steps(&self, seed: u64, agg: &mut Agg) {
+        // the stress sessions and a few controlled scenarios again, on a ThreadSanitizer build of this binary
+        let n = scenarios(Tier::Quick).len() as u64;
+        let units: Vec<u64> = vec![0, 1, 2, n, n + 1, n + 2, n + 3];
+        crate::sanit::tsan("C08", seed, &units, agg);
     }
     fn unit_cpu_budget_s(&self) -> f64 {
         600.0
